@@ -264,15 +264,19 @@ SInitAddrFrags == {FSInitAddr(d, sh) : d \in Durations, sh \in {"scalar", "membe
 (* a member named td_t (6.7.8p3, 6.2.3: after a type specifier the identifier is a declarator, not a typedef name) - always valid     *)
 FTdShadow(sp, w) == [form |-> "tdshadow", spec |-> sp, where |-> w]
 TdShadowFrags == {FTdShadow(sp, w) : sp \in {"td_t", "struct_S", "union_U", "enum_E", "void_ptr", "_Bool", "int", "ptr_td"}, w \in {"obj", "param", "member"}}
+(* `T zv = { { 1, ..., n } };`: n initializers inside an INNER brace list for the first subobject of T, whose enclosing  *)
+(* aggregate still has room: int[2][2], struct {int x[2]; int y;}, struct {struct {int a;} i; int b;}, struct {union {int a; int b;} u; int c;} *)
+FNInit(t, n) == [form |-> "ninit", tgt |-> t, n |-> n]
+NInitFrags == {FNInit(t, n) : t \in {"arr22", "sarr", "sstr", "sun"}, n \in 1..4}
 MiscFrags == {FMisc(k) : k \in {"toplevel_semi", "nested_fn", "missing_semi", "unbalanced_paren", "kw_as_ident", "asm_label", "attr_ok",
    "typedef_asm", "attr_after_paren", "attr_aligned_bad", "attr_aligned_unsup", "vla_static", "vla_init", "vla2_init", "vla_ok",
    "scalar_double_brace", "init_missing_comma", "nullptr_assign", "const_fold_overflow_s", "const_fold_overflow_u",
    "static_init_addr_local", "static_init_addr_compound", "static_init_addr_index", "static_init_addr_ok", "eof_comment_decl"}}
 DeclFrags == SpecFrags \cup ScFrags \cup ObjFrags \cup BfFrags \cup AlignasFrags \cup ArrFrags \cup SaFrags \cup InitFrags
              \cup StrInitFrags \cup StructFrags \cup ParamFrags \cup FdeclFrags \cup RedeclFrags \cup TagFrags \cup EnumFrags
-             \cup MiscFrags \cup SInitFrags \cup CInitFrags \cup EnumFixFrags \cup SInitAddrFrags \cup TdShadowFrags
+             \cup MiscFrags \cup SInitFrags \cup CInitFrags \cup EnumFixFrags \cup SInitAddrFrags \cup TdShadowFrags \cup NInitFrags
 DeclForms == {"spec", "sc", "obj", "bf", "alignas", "arr", "sa", "init", "strinit", "struct", "param", "fdecl", "redecl",
-              "tag", "enum", "misc", "sinit", "cinit", "enumfix", "sinitaddr", "tdshadow"}
+              "tag", "enum", "misc", "sinit", "cinit", "enumfix", "sinitaddr", "tdshadow", "ninit"}
 
 (* ---- directive fragments -------------------------------------------------------------- *)
 (* d: directive name; for define: redef (relation to the existing macro MF / a macro       *)
